@@ -198,6 +198,27 @@ def position_cases(tier, seed):
                        "op": rec_for(op, "é" * ((n - len(pfx)) // 2) + "k" * ((n - len(pfx)) % 2), i)}
 
 
+NON_NORMAL = ["cafe\u0301", "\u212b", "\u2126", "\u1100\u1161", "\ufb01", "\u0958" * 83 + "a", "\ufeffk", "A\u030a\u0327", "caf\u00e9"]
+
+
+def unicode_key_cases(tier, seed):
+    """legal str keys that are not in a Unicode normal form (and their UTF-8 bytes spelling): the wire key is the UTF-8 of
+    the code points as given"""
+    i = 0
+    for k in NON_NORMAL:
+        for key in (k, k.encode("utf-8")):
+            for au in (True, False):
+                for pfx in (b"", b"n:"):
+                    cfg = dict(BASE_CFG, allow_unicode_keys=au, key_prefix=pfx)
+                    for op in SINGLE_OPS:
+                        i += 1
+                        yield {"kind": ["client", "pooled", "hash", "hash-pooled"][i % 4], "cfg": cfg, "op": rec_for(op, key, i)}
+                    for kind in ("client", "pooled"):
+                        yield {"kind": kind, "cfg": cfg, "op": {"op": "get_many", "keys": [key, "plain"]}}
+                        yield {"kind": kind, "cfg": cfg, "op": {"op": "delete_many", "keys": ["plain", key], "noreply": False}}
+                        yield {"kind": kind, "cfg": cfg, "op": {"op": "set_many", "values": {key: b"v"}, "noreply": False}}
+
+
 BAD_KEYS = [b"a b", b"a\r\nflush_all", b"", b" ", b"x" * 251, "é", b"a\x00b", b"\n", "a\tb"]
 
 
@@ -231,6 +252,15 @@ def multikey_cases(tier, seed):
                 yield {"kind": kind, "cfg": BASE_CFG, "op": {"op": "set_many", "values": {k: b"v" for k in keys}, "noreply": True}}
         yield {"kind": "client", "cfg": BASE_CFG, "op": {"op": "delete_many", "keys": good, "noreply": False}}
         yield {"kind": "client", "cfg": BASE_CFG, "op": {"op": "get_many", "keys": good}}
+    # the key collection may be any iterable - a one-shot one too, also when it turns out to be empty
+    for n in (0, 1, 3):
+        keys = [b"key-%d" % j for j in range(n)]
+        for kind in ("client", "pooled", "hash", "hash-pooled"):
+            for shape in ("tuple", "iter", "generator", "map", "dictview"):
+                yield {"kind": kind, "cfg": BASE_CFG, "op": {"op": "get_many", "keys": keys, "keys_as": shape}}
+                yield {"kind": kind, "cfg": BASE_CFG, "op": {"op": "gets_many", "keys": keys, "keys_as": shape}}
+                yield {"kind": kind, "cfg": BASE_CFG, "op": {"op": "delete_many", "keys": keys, "keys_as": shape, "noreply": False}}
+                yield {"kind": kind, "cfg": BASE_CFG, "op": {"op": "delete_many", "keys": keys, "keys_as": shape, "noreply": True}}
     # legal multi-key calls of several sizes (the "nothing more" direction)
     for n in (0, 1, 2, 5, 30):
         keys = [b"key-%d" % j for j in range(n)]
@@ -499,6 +529,7 @@ PARTS = [
     Part("class-keys-len3", "enum", check, cases=class_key_cases, exhaustive=True),
     Part("byte-at-position", "enum", check, cases=position_cases, exhaustive=True),
     Part("multi-key", "enum", check, cases=multikey_cases, exhaustive=True),
+    Part("unnormalised-unicode-keys", "enum", check, cases=unicode_key_cases, exhaustive=True),
     Part("integers-and-values", "enum", check, cases=integer_cases, exhaustive=True),
     Part("serde-and-flags", "enum", check, cases=serde_flag_cases, exhaustive=True),
     Part("bytes-like-payloads", "enum", check, cases=view_serde_cases, exhaustive=True),
